@@ -257,6 +257,23 @@ pub fn gen_graph_project(rng: &mut Rng, o: &GraphOpts, n: usize, edges: &BTreeSe
             target: "sub".into(),
         });
     }
+    // more links: a directory link that leads back to an ancestor (a loop for a recursive scan),
+    // a directory link that leads out of its directory's subtree, links to source files
+    let loop_link = o.symlinks && rng.chance(1, 5);
+    if loop_link {
+        let (path, target) = *rng.pick(&[("sub/deep/up", "../.."), ("lib/back", ".."), ("sub/other/self", ".")]);
+        p.entries.push(Entry::Symlink {
+            path: path.into(),
+            target: target.into(),
+        });
+    }
+    if o.symlinks && rng.chance(1, 6) {
+        p.entries.push(Entry::Symlink {
+            path: "sub/other/ext".into(),
+            target: "../../lib".into(),
+        });
+    }
+    let file_links = o.symlinks && rng.chance(1, 4);
     let mut paths: Vec<String> = vec![];
     for i in 0..n {
         if i % 2 == 1 && rng.chance(1, 6) {
@@ -273,6 +290,23 @@ pub fn gen_graph_project(rng: &mut Rng, o: &GraphOpts, n: usize, edges: &BTreeSe
         paths.push(if d.is_empty() { name } else { format!("{d}/{name}") });
     }
     let outs: Vec<String> = paths.iter().map(|s| names::out_path(s).unwrap()).collect();
+    if file_links {
+        // `links/` holds nothing but links to sources that live elsewhere
+        p.add_dir("links");
+        for (i, sp) in paths.iter().enumerate() {
+            if rng.chance(1, 2) {
+                let name = match rng.below(3) {
+                    0 => format!("l{i}.txt.txtpp"),
+                    1 => format!("l{i}.txtpp.md"),
+                    _ => format!("l{i}.txtpp"),
+                };
+                p.entries.push(Entry::Symlink {
+                    path: format!("links/{name}"),
+                    target: format!("../{sp}"),
+                });
+            }
+        }
+    }
     let big_file = if o.big && rng.chance(1, 6) { Some(rng.below(n)) } else { None };
     let huge = rng.chance(1, 4);
     let mut temp_ctr = 0;
@@ -294,7 +328,7 @@ pub fn gen_graph_project(rng: &mut Rng, o: &GraphOpts, n: usize, edges: &BTreeSe
         // dependency-free part
         let pre = rng.below(4);
         for _ in 0..pre {
-            gen_free_element(rng, o, &mut b, &dir, i, &plains, &mut temp_ctr, deps.is_empty(), &outs[i]);
+            gen_free_element(rng, o, &mut b, &dir, i, &plains, &mut temp_ctr, deps.is_empty(), &outs[i], &outs);
         }
         for (k, dj) in deps.iter().enumerate() {
             let x = rel_path(&dir, &outs[*dj]);
@@ -329,7 +363,7 @@ pub fn gen_graph_project(rng: &mut Rng, o: &GraphOpts, n: usize, edges: &BTreeSe
             }
             let post = rng.below(3);
             for _ in 0..post {
-                gen_free_element(rng, o, &mut b, &dir, i, &plains, &mut temp_ctr, false, &outs[i]);
+                gen_free_element(rng, o, &mut b, &dir, i, &plains, &mut temp_ctr, false, &outs[i], &outs);
             }
         }
         if Some(i) == big_file {
@@ -390,6 +424,7 @@ fn gen_free_element(
     temp_ctr: &mut usize,
     marker_ok: bool,
     own_out: &str,
+    all_outs: &[String],
 ) {
     let ws = *rng.pick(&WSS);
     let pf = *rng.pick(&PREFIXES);
@@ -408,6 +443,8 @@ fn gen_free_element(
                 "printf ''",
                 // not valid UTF-8: txtpp decodes command output lossily
                 "printf 'bad\\377byte\\n'",
+                // more on stderr than a pipe holds, while stdout is still open
+                "head -c 150000 /dev/zero | tr '\\0' 'e' >&2; printf 'after the flood\\n'",
             ]);
             if o.mark_all {
                 let id = format!("r{i}.{}", b.lines.len());
@@ -483,6 +520,13 @@ fn gen_free_element(
                 // text that looks like a temp directive naming an existing, unrelated file
                 let (pp, _) = rng.pick(plains);
                 g.push(format!("{ws}{pf}TXTPP#temp {}", rel_path(dir, pp)));
+            }
+            if rng.chance(1, 3) && !all_outs.is_empty() {
+                // text that quotes a dependency directive on a generated file (this file's own
+                // output, a depender's, anybody's): an argument of `write`, never an edge
+                let x = rng.pick(all_outs);
+                let kw = if rng.chance(1, 3) { "after" } else { "include" };
+                g.push(format!("{ws}{pf}TXTPP#{kw} {}", rel_path(dir, x)));
             }
             b.group(g);
             b.push("after write".into());
@@ -565,11 +609,49 @@ pub fn r_inputs(p: &Project, a: &Analysis, base: &str, inputs: &[String], recurs
             None => return Resolved::Error(format!("input {inp} leaves the tree")),
         };
         if dirs.contains(&t) {
-            for (i, s) in a.sources.iter().enumerate() {
-                let in_dir = s.dir == t;
-                let nested = t.is_empty() || s.dir.starts_with(&format!("{t}/"));
-                if in_dir || (recursive && nested) {
-                    set.insert(i);
+            // a scan lists the regular files of the directory and the symbolic links in it: a
+            // link named like a source that leads to a source stands for that source; with
+            // recursion, sub-directories (linked ones through their targets) are scanned too,
+            // each directory once however it is reached
+            let mut todo = vec![t.clone()];
+            let mut seen_dirs: BTreeSet<String> = BTreeSet::new();
+            while let Some(d) = todo.pop() {
+                if !seen_dirs.insert(d.clone()) {
+                    continue;
+                }
+                for (i, s) in a.sources.iter().enumerate() {
+                    if s.dir == d {
+                        set.insert(i);
+                    }
+                }
+                for e in &p.entries {
+                    match e {
+                        Entry::Symlink { path, .. } if parent_rel(path) == d => {
+                            if let Some(r) = p.resolve(path) {
+                                if dirs.contains(&r) {
+                                    if recursive {
+                                        todo.push(r);
+                                    }
+                                } else if names::is_source_name(names::file_name(path)) {
+                                    if let Some(i) = a.by_path.get(&r) {
+                                        set.insert(*i);
+                                    }
+                                }
+                            }
+                        }
+                        Entry::Dir { path } if recursive && !path.is_empty() && parent_rel(path) == d => {
+                            todo.push(path.clone());
+                        }
+                        _ => {}
+                    }
+                }
+                if recursive {
+                    // directories that exist only as parents of planted files
+                    for x in &dirs {
+                        if !x.is_empty() && parent_rel(x) == d {
+                            todo.push(x.clone());
+                        }
+                    }
                 }
             }
             continue;
